@@ -271,6 +271,9 @@ def main():
     # ... and names that begin with a separator in front of a declared name: a stray separator resolves nothing
     for nm in (b's|zz', b'"s|t|zz"', b'"m=0|zz"', b'|i', b'||i', b'|s', b'"|m=0|x"', b'"m=|x"', b'"mt=|x"', b'"s|t=|y"'):       # ... or have a qualifier with nothing in it
         d1 += atoms(nm) + [nm + b' { }', nm + b' t { a = 1 }', nm + b' { i = x u { } }']
+    # ... and names that are a proper prefix of a declared name, or a declared name with something appended
+    for nm in (b'k', b'f', b'mtt', b'kvmx'):
+        d1 += atoms(nm) + [nm + b' { }', nm + b' t { a = 1 }']
     shards = [(b, list(ch), dl) for b in BASES for ch in engine.chunks(d1, 40)]
     engine.phase(ck, 'single unknown item of nesting <= 1 at every boundary', shard_single, shards, items=len(d1), bases=len(BASES))
     ns = list(range(1, 11)) + [100, 1000, 10000]
